@@ -213,7 +213,10 @@ fn run_ops(p: &PciParams, sc: &str) -> (Vec<String>, Value) {
     for k in 0..p.count {
         reset_world();
         let mult = [0u32, 2, 4, 6, 8][rng.gen_range(0..5)];
-        let cfg_len = [0usize, 4, 8, 12, 60, 256][rng.gen_range(0..6)];
+        // window lengths that are not whole words: the trailing partial word is inside the window
+        // for byte / half-word accesses and must never be exceeded by wider ones
+        let cfg_len = [0usize, 4, 8, 12, 60, 256, 5, 6, 7, 13, 62][rng.gen_range(0..11)];
+        EXACT_CFG_LEN.with(|e| e.set(true));
         let nq = 3;
         let mut d = VirtioPciDev::new(0, nq, 32768, (0..cfg_len).map(|i| i as u8).collect(), mult);
         d.semantic = false;
@@ -224,6 +227,7 @@ fn run_ops(p: &PciParams, sc: &str) -> (Vec<String>, Value) {
         }
         let noffs: Vec<u16> = d.queues.iter().map(|q| q.notify_off).collect();
         let dev = install_standard(BDF, 2, d, cfg_len, cfg_len > 0);
+        EXACT_CFG_LEN.with(|e| e.set(false));
         with_bus(|b| b.log = false);
         let t = if p.cam {
             let base = map_cam(Cam::Ecam);
@@ -236,19 +240,19 @@ fn run_ops(p: &PciParams, sc: &str) -> (Vec<String>, Value) {
         .expect("standard function");
         with_world(|w| w.trace.clear());
         let notify_len = std::cmp::max(2, 2 * nq * mult as usize + 2);
-        reg(json!({"e":"PReset","sc":format!("{sc}.{k}"),"mult":mult,"cfg_len":cfg_len.div_ceil(4)*4,"has_cfg":cfg_len>0,"noffs":noffs,"notify_len":notify_len,"nq":nq}));
+        reg(json!({"e":"PReset","sc":format!("{sc}.{k}"),"mult":mult,"cfg_len":cfg_len,"has_cfg":cfg_len>0,"noffs":noffs,"notify_len":notify_len,"nq":nq}));
         let (d1, d2) = (dev.clone(), dev.clone());
         let set_off = move |f: u64| d1.borrow_mut().offered = f;
         let set_isr = move |i: u32| d2.borrow_mut().isr = i as u8;
         if k % 2 == 0 {
             let mut st: SomeTransport<'static> = t.into();
-            crate::scen_mmio::exercise(&mut st, &set_off, &set_isr, false, cfg_len.div_ceil(4) * 4, &mut rng);
+            crate::scen_mmio::exercise(&mut st, &set_off, &set_isr, false, cfg_len, &mut rng);
             reg(json!({"e":"Op","name":"drop","vl":[0,0]}));
             drop(st);
             reg(json!({"e":"OpEnd"}));
         } else {
             let mut t = t;
-            crate::scen_mmio::exercise(&mut t, &set_off, &set_isr, false, cfg_len.div_ceil(4) * 4, &mut rng);
+            crate::scen_mmio::exercise(&mut t, &set_off, &set_isr, false, cfg_len, &mut rng);
             reg(json!({"e":"Op","name":"drop","vl":[0,0]}));
             drop(t);
             reg(json!({"e":"OpEnd"}));
